@@ -92,6 +92,11 @@ def r18_1_cycles(ctx, rid='R18.1'):
                 continue
             inner = g.cfg.guard_nodes(g.nid(ret))
             okx = bool(inner)
+            # "no children gathered": the collection the descent loops over is empty
+            child_vars = {l.iter.id for c in rec for l in S.enclosing_loops(c, g.node) if isinstance(l, ast.For) and isinstance(l.iter, ast.Name)}
+            if inner and G.canon_atom(inner[-1].ast, inner[-1].pol) in {(v_, False) for v_ in child_vars} | {('len(%s) == 0' % v_, True) for v_ in child_vars}:
+                r.ok('the early exit is taken when there are no children to descend into')
+                continue
             for b in inner[-1:]:
                 t = b.ast
                 alts = t.values if isinstance(t, ast.BoolOp) and isinstance(t.op, ast.Or) else [t]
